@@ -69,118 +69,9 @@ fn c08_empty_reply() {
     std::mem::forget(res);
 }
 
-/// calibration: model reader only, concrete tape
-#[kani::proof]
-#[kani::unwind(14)]
-fn cal_reader_only_concrete() {
-    use_reply_tables();
-    register_error_macros();
-    let mut t = Tape::EMPTY;
-    push_item(&mut t, Item::ErrError);
-    reply_close(&mut t);
-    tape::register(0, t);
-    let mut reader = reader_for(0);
-    let mut n = 0;
-    loop {
-        match reader.read_resolved_event() {
-            Ok((_, quick_xml::events::Event::Eof)) => break,
-            Ok((ResolveResult::Bound(ns), quick_xml::events::Event::Start(tag))) if ns == xmlns::BASE && tag.local_name().as_ref() == b"rpc-error" => n += 1,
-            Ok(_) => {}
-            Err(_) => break,
-        }
-    }
-    assert!(n == 1);
-}
-
-/// calibration: rpc::Error::read_xml on a concrete tape
-#[kani::proof]
-#[kani::unwind(14)]
-fn cal_error_concrete() {
-    use_reply_tables();
-    register_error_macros();
-    let mut t = Tape::EMPTY;
-    push_item(&mut t, Item::ErrError);
-    reply_close(&mut t);
-    tape::register(0, t);
-    let mut reader = reader_for(0);
-    {
-        let ev = reader.read_resolved_event();
-        std::mem::forget(ev);
-    }
-    let start = BytesStart::from_id(n::RPC_ERROR);
-    let res = Error::read_xml(&mut reader, &start);
-    assert!(res.is_ok());
-    std::mem::forget(res);
-}
-
 #[kani::proof]
 fn cal_nothing() {
     let x: u8 = kani::any();
     assert!(x as u32 + 1 > 0);
 }
 
-#[kani::proof]
-#[kani::unwind(14)]
-fn cal_setup_only() {
-    use_reply_tables();
-    register_error_macros();
-    let mut t = Tape::EMPTY;
-    push_item(&mut t, Item::ErrError);
-    reply_close(&mut t);
-    tape::register(0, t);
-    assert!(tape::registered(0).len == 2);
-}
-
-#[kani::proof]
-#[kani::unwind(14)]
-fn cal_one_event() {
-    use_reply_tables();
-    register_error_macros();
-    let mut t = Tape::EMPTY;
-    push_item(&mut t, Item::ErrError);
-    reply_close(&mut t);
-    tape::register(0, t);
-    let mut reader = reader_for(0);
-    let r = reader.read_resolved_event().is_ok();
-    assert!(r);
-}
-
-#[kani::proof]
-#[kani::unwind(14)]
-fn cal_two_events() {
-    use_reply_tables();
-    register_error_macros();
-    let mut t = Tape::EMPTY;
-    push_item(&mut t, Item::ErrError);
-    reply_close(&mut t);
-    tape::register(0, t);
-    let mut reader = reader_for(0);
-    let r = reader.read_resolved_event().is_ok();
-    let r2 = reader.read_resolved_event().is_ok();
-    assert!(r && r2);
-}
-
-#[kani::proof]
-#[kani::unwind(8)]
-fn cal_empty_reply_no_errors() {
-    use_reply_tables();
-    let mut t = Tape::EMPTY;
-    let mut i = 0;
-    while i < 2 {
-        let c: u8 = kani::any();
-        match c % 3 {
-            0 => t.push(cells::OK),
-            1 => t.push(cells::COMMENT),
-            _ => t.push(cells::OTHER),
-        }
-        i += 1;
-    }
-    reply_close(&mut t);
-    tape::register(0, t);
-    let mut reader = reader_for(0);
-    let start = BytesStart::from_id(n::RPC_REPLY);
-    let res = EmptyReply::read_xml(&mut reader, &start);
-    kani::cover!(matches!(res, Ok(EmptyReply::Ok)), "some reply is Ok");
-    kani::cover!(res.is_err(), "some reply is a read error");
-    std::mem::forget(res);
-}
